@@ -293,4 +293,4 @@ def run(ctx):
     ps = enum_plans(quick)
     ctx.parallel(_worker_enum, [ps[i::48] for i in range(48)])
     ctx.exhaustive["every V x path x second-reset mode fault-free; single fault on each of the first N frames"] = True
-    ctx.parallel(_worker, [80] * 16 if quick else [6000] * 16)
+    ctx.parallel(_worker, [250] * 16 if quick else [6000] * 16)
